@@ -494,6 +494,7 @@ type onsRun struct {
 	lastOpts  string
 	committed map[string]string
 	tainted   map[string]string // sub-name -> known-finding signature that explains its stale state
+	listed    map[string]string // name -> owner (hex) whose successful DOMAIN_SELL put it on sale
 	lines     []string          // correspondence input lines
 	impl      []string          // implementation's canonical output lines
 	okOps     map[string]int
@@ -523,7 +524,7 @@ func newOnsRun(p onsParams, res *Result, c int, hl *HistoryLog) (*onsRun, error)
 		return nil, err
 	}
 	A.InitChain()
-	e := &onsRun{w: w, p: p, A: A, sim: NewSim(w), res: res, c: c, hl: hl, tainted: map[string]string{}, okOps: map[string]int{}, nontriv: map[string]bool{}}
+	e := &onsRun{w: w, p: p, A: A, sim: NewSim(w), res: res, c: c, hl: hl, tainted: map[string]string{}, listed: map[string]string{}, okOps: map[string]int{}, nontriv: map[string]bool{}}
 	e.committed = A.DumpMap()
 	st := decodeOns(e.committed)
 	e.lastOpts = st.Base.String() + "/" + st.PerB.String()
@@ -764,6 +765,9 @@ func (e *onsRun) deliver(o onsOp, tx []byte, height int64) TxResult {
 		code = "fail:other:" + strconv.Quote(tr.Log)
 	}
 	e.res.Distribution[o.Kind+":"+code]++
+	if strings.HasPrefix(o.Note, "listing-scenario:") {
+		e.res.Distribution[o.Note+" => "+code]++
+	}
 	e.hl.Add("    -> %s gas=%d", code, tr.GasUsed)
 	if e.debug {
 		fmt.Fprintf(realStdout, "%s\n    -> code=%d %s log=%s\n", o.String(), tr.Code, code, tr.Log)
@@ -998,6 +1002,9 @@ func (e *onsRun) monitorTx(o onsOp, tr TxResult, code string, height, version in
 			e.hit("purchase-did-not-transfer-to-buyer", detail("owner %s", n.Owner))
 		}
 		var wantExp, wantQ *big.Int
+		if onSale && e.listed[o.Name] != d.Owner {
+			e.hit("purchase-at-price-not-set-by-current-owner", detail("asking price %v was set by %q, the name belongs to %s", d.SalePrice, e.listed[o.Name], d.Owner))
+		}
 		if onSale {
 			if d.SalePrice == nil || o.Amt.Cmp(d.SalePrice) < 0 {
 				e.hit("purchase-below-asking-price", detail("asking %v", d.SalePrice))
@@ -1088,6 +1095,28 @@ func (e *onsRun) monitorTx(o onsOp, tr TxResult, code string, height, version in
 		}
 		was, is := pre.Recs[n], post.Recs[n]
 		r := rootOf(n)
+		// sale status: set / cleared only by the owner's DOMAIN_SELL, cleared by every change of ownership
+		if is != nil {
+			listedNow := is.OnSale || is.SalePrice != nil
+			switch {
+			case was == nil:
+				if listedNow {
+					e.hit("sale-state-survives-ownership-change", detail("new record %s is on sale: %s", n, is))
+				}
+			default:
+				if (was.Owner != is.Owner || (o.Kind == "purchase" && o.Name == n)) && listedNow {
+					e.hit("sale-state-survives-ownership-change", detail("%s went from %s to %s but is still listed (onSale=%v price=%v): the new owner never listed it", n, was.Owner, is.Owner, is.OnSale, is.SalePrice))
+				}
+				samePrice := (was.SalePrice == nil) == (is.SalePrice == nil) && (was.SalePrice == nil || was.SalePrice.Cmp(is.SalePrice) == 0)
+				if was.OnSale != is.OnSale || !samePrice {
+					byOwner := o.Kind == "sale" && o.Name == n && was.Owner == signer
+					byPurchase := o.Kind == "purchase" && o.Name == n && !listedNow
+					if !byOwner && !byPurchase {
+						e.hit("sale-state-changed-without-owner", detail("%s: onSale %v->%v price %v->%v", n, was.OnSale, is.OnSale, was.SalePrice, is.SalePrice))
+					}
+				}
+			}
+		}
 		switch {
 		case o.Kind == "send":
 			// reported above
@@ -1117,6 +1146,17 @@ func (e *onsRun) monitorTx(o onsOp, tr TxResult, code string, height, version in
 				e.hit("root-domain-deleted", detail("%s", n))
 			}
 		}
+	}
+	// who listed what
+	switch o.Kind {
+	case "sale":
+		if o.Flag {
+			delete(e.listed, o.Name)
+		} else {
+			e.listed[o.Name] = signer
+		}
+	case "purchase":
+		delete(e.listed, o.Name)
 	}
 	// non-trivial branches reached
 	switch o.Kind {
@@ -1165,6 +1205,15 @@ func (e *onsRun) monitorCommit(height int64) {
 	for n := range e.tainted {
 		if st.Recs[n] == nil {
 			delete(e.tainted, n)
+		}
+	}
+	for _, n := range st.names() {
+		r := st.Recs[n]
+		switch {
+		case r.OnSale && e.listed[n] != r.Owner:
+			e.hit("name-on-sale-not-listed-by-current-owner", fmt.Sprintf("after block %d: %s is on sale for %v, owner %s, listed by %q", height, n, r.SalePrice, r.Owner, e.listed[n]))
+		case !r.OnSale && r.SalePrice != nil:
+			e.hit("asking-price-without-listing", fmt.Sprintf("after block %d: %s carries price %v but is not on sale", height, n, r.SalePrice))
 		}
 	}
 }
@@ -1668,6 +1717,20 @@ func RunOns(opt OnsOptions) (*Result, error) {
 				govCu = "onsOptions.baseDomainPrice:" + new(big.Int).Add(new(big.Int).Mul(p.Base, big.NewInt(2)), big.NewInt(1)).String()
 			}
 		}
+		// one history in two plays the listing scenario on a name of its own: A registers Lst.ol for two
+		// blocks and lists it, it expires while listed, B buys it as an expired name, C (and A) then offer
+		// the old asking price
+		lstStart := -1
+		var lstPrice *big.Int
+		lstA, lstB, lstC := 0, 1, 2
+		if r.Intn(2) == 0 {
+			lstStart = 1 + r.Intn(opt.Blocks/2+1)
+			perm := []int{0, 1, 2}
+			if len(e.w.Accts) > 4 {
+				perm = []int{r.Intn(2), 2, 3}
+			}
+			lstA, lstB, lstC = perm[0], perm[1], perm[2]
+		}
 		for bi := 0; bi < opt.Blocks; bi++ {
 			st := decodeOns(e.committed)
 			version := e.A.App.VerifChainState().Version
@@ -1687,6 +1750,25 @@ func RunOns(opt OnsOptions) (*Result, error) {
 				for vi := range e.w.Vals {
 					if e.w.Vals[vi].Genesis {
 						ops = append(ops, onsOp{Kind: "gov-vote", Signer: vi, Other: -1, Name: "-", Note: "yes"})
+					}
+				}
+			}
+			if lstStart >= 0 && st.PerB.Sign() > 0 {
+				pb := st.PerB
+				switch bi - lstStart {
+				case 0:
+					ops = append(ops, onsOp{Kind: "create", Signer: lstA, Other: lstA, Name: "Lst.ol", Amt: new(big.Int).Add(st.Base, new(big.Int).Mul(pb, big.NewInt(2))), Note: "listing-scenario:register-for-2-blocks"})
+				case 1:
+					lstPrice = new(big.Int).Add(pb, big.NewInt(int64(1+r.Intn(100000))))
+					ops = append(ops, onsOp{Kind: "sale", Signer: lstA, Other: -1, Name: "Lst.ol", Amt: lstPrice, Note: "listing-scenario:list"})
+				case 3:
+					ops = append(ops, onsOp{Kind: "purchase", Signer: lstB, Other: lstB, Name: "Lst.ol", Amt: new(big.Int).Add(st.Base, new(big.Int).Mul(pb, big.NewInt(int64(3+r.Intn(4))))), Note: "listing-scenario:buy-expired-while-listed"})
+				case 4:
+					if lstPrice != nil {
+						ops = append(ops, onsOp{Kind: "purchase", Signer: lstC, Other: lstC, Name: "Lst.ol", Amt: new(big.Int).Add(lstPrice, new(big.Int).Mul(pb, big.NewInt(int64(r.Intn(3))))), Note: "listing-scenario:third-party-offers-old-price"})
+						if r.Intn(2) == 0 {
+							ops = append(ops, onsOp{Kind: "purchase", Signer: lstA, Other: lstA, Name: "Lst.ol", Amt: new(big.Int).Set(lstPrice), Note: "listing-scenario:previous-owner-offers-old-price"})
+						}
 					}
 				}
 			}
